@@ -18,6 +18,8 @@ claimed = {
  "C17": ("as C06 with the first observation allowed anywhere in the week of the start time: the relation additionally fixes the previous timestamps to zero before the first message, New establishes that, and the step is proved without the hypothesis that the first observation is not earlier than T", "6 C17"),
  "C07": ("no crash, no hang: zero-tolerance safety sweep over the whole cone of HandleMessages, GetMessage, Analyse, PrepareForDisplay and Message.String (45 functions under contract, everything else inlined): one obligation per index, slice, nil dereference, division, shift count, type assertion, map write, channel operation and precondition of the unchecked bit readers, plus a termination measure for every loop; display code is checked with exact wrap-around arithmetic; both log levels are covered because the level is a symbolic field", "6 C07"),
  "C08": ("ranges, phase ranges, rates: exact integer postconditions for the six GetAggregate* methods (invalid rough value gives 0, invalid fine value falls back to the rough value, otherwise whole x 2^29 + frac x 2^19 + fine with the MSM4 deltas scaled x32 / x4 through the same specification function, which is the MSM4 = MSM7 clause); floating-point postconditions for RangeInMetres, PhaseRange, PhaseRangeRate, PhaseRangeRateDoppler and GetSignalWavelength in the relative-rounding-error model (result within k x 2^-53 of the standard's formula); argument-flow obligations that \"invalid\" reaches the display", "6 C08"),
+ "C09": ("reader-to-sinks pipeline: per-stage contracts over ghost channel histories - the reader stage forwards exactly the bytes it read, in order, and closes its channel on return; the framing stage (C02/C03 clauses) turns its byte feed into the segment sequence and closes its output once; the fan-out stage sends every received message, as a value and in order, to every non-nil consumer and closes nothing - plus preconditions checked at each go statement, transfer of close permission at spawn (a second close or a send after hand-over is reported by the close-once / send-closed obligations), termination measures of the framing and fan-out stages on their feeds, and the whole-program spawn-disjoint obligation (the spawner does not touch what it handed over).  Schedules, buffer capacities and timings are not enumerated: each stage is proved for every feed, and the lift to every schedule is Kahn determinism of single-reader/single-writer channel networks (assumption K)", "6 C09/C10"),
+ "C13": ("transient end-of-file and timeouts: the reader stage is proved against a prophecy reader (any sequence of results: a byte, end of file, i/o timeout, other error, or nothing; any placement): the byte channel carries exactly the bytes read so far, each once and in order, at every loop iteration and at return; the channel is closed at return; the stage returns only with the error of its last read and every earlier error was a tolerated one.  The wall-clock condition (give up only after the tolerance has elapsed) is the code's own guard and is not restated as a contract", "6 C13"),
  "C12": ("corrupted frame discarded alone: per-fetch postcondition SegCorrupt (cursor lands exactly behind the damaged frame) lifted by the HandleMessages invariant; neighbours are covered by the C03 clauses", "6 C12"),
 }
 
@@ -28,7 +30,7 @@ NOTE = ("Assumes: the VC generator and SMT solvers; 64-bit int; assumed contract
 not_applicable = {
 }
 
-pending = ["C04","C09","C10","C11","C13","C16","C19"]
+pending = ["C04","C10","C11","C16","C19"]
 
 def main():
     checks = []
